@@ -43,6 +43,7 @@ def explore(ctx, fn, n, mode, kind, faults=1, loop_limit=None, preheld=None):
         if ctx.A.mode_kind(ctx.A.role_of(p)):
             del I.primitives[p]
     I.max_faults = faults
+    I.state_limit = 5000000
     I.loop_limit = loop_limit or (n + 3)
     st = State()
     lst = listmodel.new_list(I, LID, n, _dyn_elem_ty())
@@ -155,7 +156,7 @@ def _run_all(ctx, tier_n):
             ll = None
             nn = n
             if label.startswith("Retrying::raw_write") or label.startswith("Retrying::raw_read"):
-                if n > 3:
+                if n > 4:
                     continue
                 ll = (n + 2) * (RETRIES + 1)      # RETRIES full retry rounds, then the path is cut
             paths, err = explore(ctx, f, nn, mode, kind, faults=tier_faults(), loop_limit=ll, preheld=pre)
